@@ -79,7 +79,7 @@ func (w *world) genComposite(d *txDesc) *types.MutableTransaction {
 	other := w.users[(d.Payer+1+c.Intn(len(w.users)-1))%len(w.users)].Address
 	var script []byte
 	var steps []string
-	heavy := false
+	heavy := 0
 	n := 1 + c.Intn(3)
 	for i := 0; i < n; i++ {
 		b := vm.NewParamsBuilder(new(bytes.Buffer))
@@ -107,7 +107,7 @@ func (w *world) genComposite(d *txDesc) *types.MutableTransaction {
 			script = append(script, native(nutils.SystemContractAddress, "evmInvoke", evmArg{nutils.GovernanceContractAddress, other, nil})...)
 		case k < 10: // Contract.Create of a fresh contract
 			steps = append(steps, "contract-create")
-			heavy = true
+			heavy++
 			deployParams(b, append([]byte{byte(vm.PUSH4), byte(vm.DROP)}, c.Bytes(6)...))
 			syscall(b, "Ontology.Contract.Create")
 			b.Emit(vm.DROP)
@@ -118,7 +118,7 @@ func (w *world) genComposite(d *txDesc) *types.MutableTransaction {
 			script = append(script, b.ToArray()...)
 		default: // the migrating contract
 			steps = append(steps, "contract-migrate")
-			heavy = true
+			heavy++
 			deployParams(b, append([]byte{byte(vm.PUSH5), byte(vm.DROP)}, c.Bytes(6)...))
 			b.EmitPushCall(w.migrator[:])
 			script = append(script, b.ToArray()...)
@@ -135,11 +135,11 @@ func (w *world) genComposite(d *txDesc) *types.MutableTransaction {
 	default:
 		steps = append(steps, "ok")
 	}
-	if heavy { // Contract.Create / Migrate cost 20,000,000 gas
+	if heavy > 0 { // Contract.Create / Migrate cost 20,000,000 gas each
 		d.Price = []uint64{0, 1, 500}[c.Intn(3)]
-		d.Limit = 20000000 + uint64(c.Intn(1500000))
+		d.Limit = 20000000*uint64(heavy) + uint64(c.Intn(1500000))
 		if c.Intn(5) == 0 {
-			d.Limit = 19000000 + uint64(c.Intn(1000000)) // not enough: fails inside the sub-call
+			d.Limit = 20000000*uint64(heavy) - 1000000 + uint64(c.Intn(1000000)) // not enough: fails inside the sub-call
 		}
 	} else {
 		if d.Price > 5000 && c.Intn(3) != 0 {
